@@ -46,6 +46,9 @@ CHECKS = {
  "C19": ("fault_enumeration", "runtime fault injection observed from the boundary: counting custom sinks registered under fresh schemes, the /proc/self/fd table (GC held off so finalizers cannot hide a leak), the sandbox directory, and the standard logger's flags/prefix/writer",
          "Open over path lists of 0-5 entries with every failing subset (failing custom sinks, unopenable files, directories, unknown schemes, unparsable URLs); Config.Build over every error path (bad output / error-output path, unknown or empty encoding, missing time encoder, missing level) combined with otherwise valid sink lists; RedirectStdLogAt / NewStdLogAt at all 256 levels under random prior flags, prefix and writer; file URLs assembled from components (scheme case, host, user info, port, query, fragment, percent-escapes) classified without net/url; sink scheme and encoder names. Error returns must leave every opened sink closed once and no new descriptor; successes must deliver every write to every destination; exactly the URL's path is opened.",
          "Empty query/fragment/port, an empty user-info marker and host LOCALHOST are recorded don't-care zones. Descriptors that vanish are never a finding; only descriptors pointing into the case's sandbox are attributed.", "3/C19"),
+ "C11": ("exploration", "runtime monitor: 12-line reference sampler (window/count per level and FNV-1a bucket) checked online against the forwarded entries and decision-hook calls; concurrent part under the race detector with lock-free per-entry slots and an injected yield between counter reset and window CAS",
+         "N seeded sequential programs over (N, M, tick) with timestamps placed exactly on window ends, one nanosecond either side, equal, backwards and jumping, hash-colliding messages, disabled (moving AtomicLevel threshold) and out-of-range levels, With-derived cores, plus Config.Build samplers through a real Logger: the ordered forwarded entries and ordered (entry, decision) hook calls must equal the model's. Concurrent runs in a -race child: one key inside one already-open window (exact admitted count) and rollover storms (one decision, one hook call, forwarded iff sampled per entry).",
+         "Entries carry strictly positive Unix timestamps. Under concurrent window rollover only the per-entry accounting is judged, as the statement says.", "3/C11"),
 }
 NOT_YET = {}
 props = [json.loads(l) for l in open(os.path.join(V, "properties.jsonl"))]
